@@ -321,22 +321,37 @@ def is_async_fn(facts, fn):
 
 
 def loop_heads(body):
-    """targets of back edges (DFS)"""
+    """loop headers, independent of block numbering: targets of edges u -> h where h dominates u (natural loops). For the rare
+    irreducible cycle (no dominating header) the targets of DFS back edges are added, visiting successors in source-line order."""
+    live = body.live_blocks()
     heads = set()
+
+    dominates = body.dominates
+    preds = body.preds()
+    for h in sorted(live):
+        for u in preds.get(h, ()):
+            if u in live and dominates(h, u):
+                heads.add(h)
+                break
+    # irreducible remainder
     color = {}
-    stack = [(0, iter(body.succs(0)))]
+
+    def succs(b):
+        return sorted(body.succs(b), key=lambda x: (body.blocks[x].term.line or 0, len(body.blocks[x].stmts)))
+    stack = [(0, iter(succs(0)))]
     color[0] = 1
     while stack:
         b, it = stack[-1]
         adv = False
-        for s in it:
-            if color.get(s, 0) == 0:
-                color[s] = 1
-                stack.append((s, iter(body.succs(s))))
+        for s_ in it:
+            if color.get(s_, 0) == 0:
+                color[s_] = 1
+                stack.append((s_, iter(succs(s_))))
                 adv = True
                 break
-            elif color.get(s) == 1:
-                heads.add(s)
+            elif color.get(s_) == 1:
+                if not any(dominates(h, s_) and s_ in body.reachable(h) and h in body.reachable(s_) for h in heads):
+                    heads.add(s_)
         if not adv:
             color[b] = 2
             stack.pop()
